@@ -430,12 +430,13 @@ CHECKS["C20"] = {
              "faults (a storage error carrying a marker string injected at storage call k = 0..7 of the request, single or from-then-on, or Lightning errors with markers, on swap / mint quote / mint / melt quote / checkstate / restore / quote state / info / melt), cache probes (byte-identical replay of every successful swap / mint; near replays: trailing space, query string, other path, GET, reordered keys, one hex digit changed). "
              "oracle: hand-written shape validators (status 200, Content-Type application/json, string states from the NUT enumerations, 66-hex points, 64-hex e/s, one signature per output with equal amounts, 60 keys ascending in the raw bytes, echo and order of Ys); refusals are status 400 with body exactly {detail: string, code: number} and code = the NUT code of the injected cause for the unambiguous causes "
              "(10002, 10003, 10004, 11001, 11002, 11003, 11005, 11006, 11007, 11008, 12001, 12002, 20001, 20002, 20005, 20006, 20008); faulted requests answer 200 or a well-formed 400 with the generic detail, never containing the marker, 'sqlite' or backend text; identical replay returns identical bytes with zero storage/LN calls by the request; every near replay executes and is answered on its own merits. "
-             "non-trivial: a response to a request that reached mint logic; distinct = (endpoint, outcome class / cause / near-replay kind / fault position)."),
+             "non-trivial: a response to a request that reached mint logic; distinct = (endpoint, outcome class / cause / near-replay kind / fault position). Websocket unit (NUT-17): one quote is taken through UNPAID -> PAID -> ISSUED over HTTP while a real websocket client is subscribed to it from a drawn point on; every frame is hand-parsed: JSON-RPC 2.0 responses {status OK, subId} and notifications whose payload is the NUT-04 quote object (quote id, request, numeric expiry, state one of the strings UNPAID / PAID / ISSUED); a notification that does not arrive within 3 s is inconclusive, not a violation; non-trivial = both changes notified."),
     "level_text": "Generated request histories, refusal causes, fault positions and replays through the real router, middleware, handlers and JSON (un)marshalers; every response is validated by shape checkers written from the NUT documents.",
     "level_note": _WORLD_NOTE + "Websocket endpoint (/v1/ws) and cache expiry (TTL) are not exercised. Calls of the mint's background watcher goroutines are not attributed to a request.",
     "assumptions": ["handler served in-process via httptest (no sockets)", "cache TTL not exercised"],
     "units": [
         rapid("surface", "^TestSurface$", 320, 8000, qs=8, ts=16),
+        rapid("websocket", "^TestWebsocket$", 48, 2000, qs=4, ts=16),
     ],
 }
 
